@@ -963,6 +963,8 @@ Lemma plain_inv r : plain r = true -> exists n q v, r = mk_relrec n q v None [].
 Proof.
   unfold plain. destruct r as [n q v [ar|] [|g pr]]; cbn; try discriminate. intros _. now exists n, q, v.
 Qed.
+Lemma plain_ver_ok r : plain r = true -> ver_ok (rr_ver r) = true.
+Proof. unfold plain. destruct (rr_archs r); [discriminate|]. destruct (rr_profs r); [auto|discriminate]. Qed.
 
 Lemma set_archqual_node_op q r0 : plain r0 = true ->
   node_op (fun r => relation_set_archqual r q) (crel_tree r0) (crel_tree (rr_set_qual q r0)).
